@@ -23,6 +23,9 @@ LOW_ORG = 1                      # second base origin: the bottom of memory, whe
 LOW_SHIFTS = [-1, 1, 0x4F]
 RENAMES = [["Q", "ZZ9", "LOOP1", "a1"], ["SU", "XS", "PCX", "DPY"], ["XS", "SU", "a1", "Q"], ["PCRL", "AB", "DD", "CCX"], ["9LIVES", "2ND", "3D", "7UP"], ["N", "LEN", "E", "ENTRY"], ["EACH", "BH", "FACE", "ADD"]]      # the last maps: one-letter names contained in the next name; names that read as hex digits (with or without a trailing H)
 FORMATS = ["space1", "tabs", "space8", "nocomment", "comment.x", "comment.hostile", "comment.wide", "mnem.lower", "mnem.mixed", "trailing.ws", "crlf", "eof.no-newline"]
+# formats that only exist in a FILE (characters that some line splitters take for line boundaries): assembled through the tool's own
+# file reader, as assembler.py and INCLUDE do
+FORMATS_FILE = ["file.comment.ff", "file.fields.ff", "file.plain"]
 ABS_TAGS = {"ext.lbl", "ext.lbl.p", "ext.lbl+1", "imm.lbl", "imm.lbl.p", "extind.lbl", "idx.lbl", "idx.lbl.p", "ind.lbl", "imm.lbl+1",
             "idx.lbl+1", "extind.lbl+1"}
 LABEL_RE = re.compile(r"\bL(\d)\b")
@@ -105,6 +108,8 @@ def cases(tier, seed):
                 yield dict(base, tr="shift", arg=d, olab=True)
             yield dict(base, tr="rename", arg=0, olab=True)
             yield dict(base, tr="format", arg=FORMATS[0], olab=True)
+            for f in FORMATS_FILE:
+                yield dict(base, tr="format", arg=f)
             yield dict(base, tr="suffix", arg="ext.lbl", olab=True)
     # interacting PC-relative statements (sizes that depend on each other) with a PC-relative or branch statement appended
     for ra, rb in itertools.product(["S0", "LA", "M", "LB", "S3"], repeat=2):
@@ -125,7 +130,7 @@ def cases(tier, seed):
         for d in SHIFTS:
             yield {"big": name, "tr": "shift", "arg": d}
             yield {"big": name, "tr": "shift", "arg": d, "olab": True}
-        for f in FORMATS:
+        for f in FORMATS + FORMATS_FILE:
             yield {"big": name, "tr": "format", "arg": f}
         for s in suffixes:
             yield {"big": name, "tr": "suffix", "arg": s}
@@ -162,6 +167,12 @@ def reformat(line, how):
         s = "{} {} {} ; {}".format(label, "".join(c.lower() if i % 2 else c for i, c in enumerate(mnem)), op, cm)
     elif how == "crlf":
         s = "{} {} {} ; {}\r".format(label, mnem, op, cm)
+    elif how == "file.comment.ff":        # form feed, vertical tab, the C0 separators, NEL and LINE SEPARATOR inside the comment
+        s = "{} {} {} ; {}".format(label, mnem, op, "page\x0cbreak\x0b INCA \x1c\x1d\x1e \x85 \u2028 NOP \u2029 tail" if mnem != "FCC" else "plain\x0cbreak")
+    elif how == "file.fields.ff":         # a form feed inside the white space between the fields
+        s = "{} \x0c {} \x0c {} \x0c ; {}".format(label, mnem, op, cm)
+    elif how == "file.plain":
+        s = "{} {} {} ; {}".format(label, mnem, op, cm)
     elif how == "trailing.ws":
         s = "{} {} {}   \t ".format(label, mnem, op)
     else:
@@ -354,6 +365,20 @@ def check_case(case):
             raw = [ln + "\n" for ln in [base[0]] + lines0]
             raw[-1] = raw[-1].rstrip("\n").split(";")[0].rstrip() if fields(lines0[-1])[1].upper() != "FCC" else raw[-1].rstrip("\n")
             out = common.assemble_confirm(raw, raw=True)
+        elif arg in FORMATS_FILE:
+            from cocoasm.virtualfiles.source_file import SourceFile
+            new = [reformat(l, arg) for l in lines0]
+            with common.scratch_dir():
+                with open("prog.asm", "w", encoding="utf-8", newline="") as f:
+                    f.write("".join(ln + "\n" for ln in [base[0]] + new))
+                try:
+                    sf = SourceFile("prog.asm")
+                    sf.read_file()
+                    raw = list(sf.get_buffer())
+                except Exception as e:
+                    raw = None
+                    bad("source file could not be read", "lines", repr(e)[:100])
+            out = common.assemble_confirm(raw, raw=True) if raw is not None else ref
         else:
             new = [reformat(l, arg) for l in lines0]
             out = common.assemble_confirm([base[0]] + new)
